@@ -892,7 +892,10 @@ func (r *runner) measure(bis []*baseInfo) {
 
 func run(e *harness.Env) {
 	e.Track = true
-	e.CaseDeadline = 300 * time.Second
+	// backstop only: the slowest passing case needs ~30 ms (333k steps); 60 s is three orders of
+	// magnitude above that. It is what catches work hidden in the runtime (quadratic string
+	// concatenation, map growth) that the step counter does not see.
+	e.CaseDeadline = 60 * time.Second
 	// address-space backstop before any faulted input is touched
 	lim := syscall.Rlimit{Cur: 6 << 30, Max: 6 << 30}
 	if err := syscall.Setrlimit(syscall.RLIMIT_AS, &lim); err != nil {
@@ -919,6 +922,7 @@ func run(e *harness.Env) {
 		bis = append(bis, info(&bases[i]))
 	}
 	r.measure(bis)
+	e.Note("field_inventory", checkInventory(bis))
 	only := os.Getenv("C02_BASE") // development aid: restrict to some bases
 	sel := func(bi *baseInfo) bool {
 		return only == "" || strings.Contains(","+only+",", ","+bi.b.name+",")
